@@ -19,7 +19,8 @@ MANIFEST = dict(
              "a barrier (own instances, own key order) and in 3 freshly launched processes; the merged observations "
              "{proc, thread, seq, key, digest} are validated by TLC against TracePurity.tla: a second, different digest "
              "for a key rejects the trace at that event."
-         " Added after the seeded-change campaign: inputs beyond 2^16 distinct values (each twice) and tiny inputs in sketches of 2000-10000 positions.",
+         " Added after the seeded-change campaign: inputs beyond 2^16 distinct values (each twice) and tiny inputs in sketches of 2000-10000 positions."
+             " Kinds include identifiers that are references to owned strings, small structs with padding, 8-byte arrays hashed in place from differently aligned buffers, and densified sketchers beyond 2^16 bins.",
         design_ref="DESIGN.md section 4, C12",
         note="sampling of environments (instances share no state, so there is no interleaving to control): 3 process launches, "
              "8 threads, the listed kinds/hashers/parameters; digests are 128-bit fingerprints of the exact bits; a hash "
